@@ -15,5 +15,5 @@ def jobs(tier):
 
 def extra(tier, seed):
     from fvverif.lean import lemma_status
-    ok, detail = lemma_status(['dmp_upper', 'dmp_lower'], rebuild=(tier == 'thorough'))
+    ok, detail = lemma_status(['dmp_upper', 'dmp_lower', 'invariant_iterate'], rebuild=(tier == 'thorough'))
     return [('lean lemmas dmp_upper/dmp_lower', ok, 'lean:' + detail)]
